@@ -1,11 +1,132 @@
 package main
 
+import (
+	"bytes"
+	"context"
+	"encoding/json"
+	"fmt"
+	"os"
+	"os/exec"
+	"path/filepath"
+	"strings"
+	"sync"
+	"time"
+)
+
+// Harness: an in-package Go test (under /verif/harness) that evaluates contract postconditions
+// concretely on the real functions for all small inputs. It serves two purposes:
+//   - replay: when an obligation of one of its functions fails, it searches for a failing input
+//     on the real code (confirmed violation, with the input in the replay file);
+//   - bounded stand-in (thorough tier): run on its own, labelled bounded, never counted as proved.
+type Harness struct {
+	Name          string   `json:"name"`
+	File          string   `json:"file"`
+	Run           string   `json:"run"`
+	Funcs         []string `json:"funcs"` // function-name prefixes this harness exercises
+	BoundQuick    string   `json:"bound_quick"`
+	BoundThorough string   `json:"bound_thorough"`
+	Describe      string   `json:"describe"`
+}
+
+type harnessRun struct {
+	ok     bool
+	output string
+	secs   float64
+	cmd    string
+}
+
+var (
+	harnessMu    sync.Mutex
+	harnessCache = map[string]*harnessRun{}
+)
+
+func runHarness(h Harness, bound, verif, repo string, timeout time.Duration) *harnessRun {
+	key := h.File + "|" + h.Run + "|" + bound
+	harnessMu.Lock()
+	if r, ok := harnessCache[key]; ok {
+		harnessMu.Unlock()
+		return r
+	}
+	harnessMu.Unlock()
+	start := time.Now()
+	tmp, _ := os.MkdirTemp("", "govc-harness")
+	defer os.RemoveAll(tmp)
+	ov := map[string]map[string]string{"Replace": {filepath.Join(repo, "trzsz", "zz_verif_harness_test.go"): filepath.Join(verif, "harness", h.File)}}
+	b, _ := json.Marshal(ov)
+	ovPath := filepath.Join(tmp, "ov.json")
+	os.WriteFile(ovPath, b, 0o644)
+	ctx, cancel := context.WithTimeout(context.Background(), timeout+30*time.Second)
+	defer cancel()
+	args := []string{"test", "-overlay", ovPath, "-vet=off", "-count=1", "-timeout", fmt.Sprintf("%ds", int(timeout.Seconds())), "-run", h.Run, "./trzsz"}
+	cmd := exec.CommandContext(ctx, "go", args...)
+	cmd.Dir = repo
+	cmd.Env = append(os.Environ(), "GOFLAGS=-mod=mod", "GOPROXY=off", "GOSUMDB=off", "GOTOOLCHAIN=local", "VERIF_BOUND="+bound)
+	var out bytes.Buffer
+	cmd.Stdout = &out
+	cmd.Stderr = &out
+	err := cmd.Run()
+	text := out.String()
+	if len(text) > 30000 {
+		text = text[:30000] + "\n...[truncated]"
+	}
+	r := &harnessRun{ok: err == nil, output: text, secs: time.Since(start).Seconds(),
+		cmd: fmt.Sprintf("cd %s && VERIF_BOUND=%s go test -overlay <{%s/trzsz/zz_verif_harness_test.go -> %s/harness/%s}> -vet=off -count=1 -run '%s' ./trzsz", repo, bound, repo, verif, h.File, h.Run)}
+	// a build failure of the harness against a changed tree is not a confirmation of anything
+	if err != nil && (strings.Contains(text, "[build failed]") || strings.Contains(text, "[setup failed]")) {
+		r.ok = true
+		r.output = "HARNESS DID NOT BUILD against this tree (not a confirmation):\n" + text
+	}
+	harnessMu.Lock()
+	harnessCache[key] = r
+	harnessMu.Unlock()
+	return r
+}
+
+func harnessFor(p *PropConfig, fn string) []Harness {
+	var hs []Harness
+	for _, h := range p.Harness {
+		for _, pre := range h.Funcs {
+			if strings.HasPrefix(fn, pre) {
+				hs = append(hs, h)
+				break
+			}
+		}
+	}
+	return hs
+}
+
 func tryReplay(g *Gen, p *PropConfig, r *OblResult, verif, repo string) ReplayResult {
-	return ReplayResult{Summary: "no replay harness for this obligation"}
+	hs := harnessFor(p, r.Func)
+	if len(hs) == 0 {
+		return ReplayResult{Summary: "no replay harness for this function; the solver gave no concrete model that could be run"}
+	}
+	var notes []string
+	for _, h := range hs {
+		bound := h.BoundQuick
+		run := runHarness(h, bound, verif, repo, 60*time.Second)
+		if !run.ok {
+			return ReplayResult{Confirmed: true, Summary: fmt.Sprintf("CONFIRMED on the real code by harness %s (bound %s): a concrete failing input is shown below", h.File, bound),
+				File: filepath.Join(verif, "harness", h.File), Output: "command: " + run.cmd + "\n" + run.output}
+		}
+		notes = append(notes, fmt.Sprintf("harness %s (bound %s, %.1fs) found no failing input", h.File, bound, run.secs))
+	}
+	return ReplayResult{Summary: strings.Join(notes, "; ")}
 }
 
 func runBounded(p *PropConfig, tier, verif, repo string) []BoundedResult {
-	return nil
+	var out []BoundedResult
+	if tier != "thorough" {
+		return nil
+	}
+	for _, h := range p.Harness {
+		bound := h.BoundThorough
+		if bound == "" {
+			bound = h.BoundQuick
+		}
+		run := runHarness(h, bound, verif, repo, 900*time.Second)
+		out = append(out, BoundedResult{Name: h.Name + " (" + h.File + ")", Bound: "VERIF_BOUND=" + bound + ": " + h.Describe, Output: "command: " + run.cmd + "\n" + run.output, OK: run.ok, Secs: run.secs})
+	}
+	return out
 }
 
 func (g *Gen) checkLemmas(p *PropConfig, bl *Baseline, tier, work string, out *CheckOutcome) int {
